@@ -16,8 +16,8 @@ pub mod seqprops;
 pub fn units(id: &str, tier: &str) -> Option<Vec<Unit>> {
     let thorough = tier == "thorough";
     Some(match id {
-        "C01" => { let mut v = seqprops::c01(thorough); v.push(schedprops::many_subscriptions_unit(thorough)); v.push(c15::limits_unit(thorough)); v.push(seqprops::deadline_walk(thorough)); v.push(seqprops::big_batch_expiry_race(thorough)); v.extend(seqprops::core_units(thorough)); v.extend(schedprops::c01_sched(thorough)); v }
-        "C02" => { let mut v = seqprops::c02(thorough); v.extend(seqprops::core_units(thorough)); v.extend(schedprops::c02_sched(thorough)); v }
+        "C01" => { let mut v = seqprops::c01(thorough); v.push(schedprops::many_subscriptions_unit(thorough)); v.push(c15::limits_unit(thorough)); v.push(seqprops::deadline_walk(thorough)); v.push(seqprops::big_batch_expiry_race(thorough)); v.extend(seqprops::core_units(thorough)); v.extend(schedprops::c01_sched(thorough)); v.push(schedprops::recreate_unit(thorough)); v }
+        "C02" => { let mut v = seqprops::c02(thorough); v.extend(seqprops::core_units(thorough)); v.extend(schedprops::c02_sched(thorough)); v.push(c03::abandoned_pull_ack_unit(thorough)); v }
         "C03" => { let mut v = c03::units(thorough); v.extend(seqprops::core_units(thorough)); v.extend(seqprops::stream_units(thorough)); v.push(seqprops::reincarnation_unit(thorough)); v }
         "C04" => { let mut v = seqprops::c04(thorough); v.extend(seqprops::core_units(thorough)); v }
         "C05" => { let mut v = seqprops::c05(thorough); v.extend(seqprops::core_units(thorough)); v }
@@ -30,7 +30,7 @@ pub fn units(id: &str, tier: &str) -> Option<Vec<Unit>> {
         "C12" => c12::units(thorough),
         "C13" => c13::units(thorough),
         "C14" => c14::units(thorough),
-        "C15" => { let mut v = c15::units(thorough); v.extend(seqprops::stream_units(thorough)); v }
+        "C15" => { let mut v = c15::units(thorough); v.extend(seqprops::stream_units(thorough)); v.extend(c06::cancel_units_small(thorough)); v }
         "C16" => c16::units(thorough),
         "C17" => c17::units(thorough),
         "C18" => c18::units(thorough),
